@@ -384,47 +384,40 @@ func intrAppendFloat(e *Exec, _ *Frame, fn *ssa.Function, args []Value) Value {
 	if !fmtc.IsConst() || !prec.IsConst() || !bitSize.IsConst() {
 		e.unsupported("AppendFloat with symbolic format")
 	}
-	if dst.b != nil && !(dst.n.IsConst() && dst.n.c == 0) {
-		e.unsupported("AppendFloat onto non-empty destination")
-	}
-	ft := &FloatText{bits: bits, fmtc: byte(fmtc.c), prec: int(sext64(prec.c, 64)), bitSize: int(bitSize.c)}
-	if bits.op == OUF && bits.name == "f32to64" {
-		ft.srcBits = bits.a[0]
-	}
-	b := e.newBacking(1, "floattext")
-	b.cells[0] = e.ctx.Const(8, '?')
-	b.flt = ft
-	b.opaque = "float text"
-	return SliceV{b: b, off: e.i64(0), n: e.i64(1), cap: e.i64(1)}
+	// the whole text is one abstract cell, a function of (value, format, precision, size)
+	cell := e.ctx.UF("floattext", 8, bits, e.ctx.Const(8, fmtc.c), e.ctx.Const(64, prec.c), e.ctx.Const(8, bitSize.c))
+	e.ctx.floatInfo[cell] = &FloatText{bits: bits, fmtc: byte(fmtc.c), prec: int(sext64(prec.c, 64)), bitSize: int(bitSize.c)}
+	return e.appendOp(dst, e.bytesFromTerms([]*Term{cell}, "floattext"), nil)
 }
 
-// ParseFloat(text produced by AppendFloat(x, f|e|E|g, -1, bs), bs') returns x
-// (exactly) when the shortest representation for bs is parsed at bs' >= bs.
+// ParseFloat(text produced by AppendFloat(x, fmt, -1, bs), bs') returns x
+// exactly when the shortest representation for bs is parsed at bs' = bs, or
+// when x is exactly a float32.
 func intrParseFloat(e *Exec, _ *Frame, fn *ssa.Function, args []Value) Value {
 	s := args[0].(StrV)
 	bs := args[1].(*Term)
-	if s.b == nil || s.b.flt == nil || !bs.IsConst() {
-		e.unsupported("ParseFloat on text not produced by AppendFloat")
+	var ft *FloatText
+	if s.b != nil && s.n.IsConst() && s.n.c == 1 && s.off.IsConst() {
+		if cell, ok := s.b.cells[s.off.c].(*Term); ok {
+			ft = e.ctx.floatInfo[cell]
+		}
 	}
-	ft := s.b.flt
-	if ft.bits.op == OUF && ft.bits.name == "f32to64" && (bs.c == 32 || bs.c == 64) && ft.prec == -1 {
-		// the value is exactly a float32: shortest text for either size parses back to it
-		return TupleV{ft.bits, IfaceV{}}
+	if ft == nil || !bs.IsConst() {
+		e.unsupported("ParseFloat on text not produced by AppendFloat")
 	}
 	if ft.prec != -1 {
 		e.unsupported("ParseFloat of non-shortest float text")
 	}
-	if int(bs.c) == ft.bitSize || (ft.bitSize == 32 && bs.c == 64) {
-		// shortest repr that round-trips at ft.bitSize; parsing at the same size gives the value back
-		if int(bs.c) == ft.bitSize {
-			return TupleV{ft.bits, IfaceV{}}
-		}
+	if ft.bits.op == OUF && ft.bits.name == "f32to64" && (bs.c == 32 || bs.c == 64) {
+		// the value is exactly a float32: shortest text for either size parses back to it
+		return TupleV{ft.bits, IfaceV{}}
+	}
+	if int(bs.c) == ft.bitSize {
+		return TupleV{ft.bits, IfaceV{}}
 	}
 	if ft.bitSize == 64 && bs.c == 32 {
-		// value narrowed on formatting side? text identifies float64 value; parsing as 32 rounds
 		return TupleV{e.ctx.UF("f32to64", 64, e.ctx.UF("f64to32", 32, ft.bits)), IfaceV{}}
 	}
-	// formatted as float32-shortest, parsed at 64: not the same value in general
 	return TupleV{e.ctx.UF("parse64of32text", 64, ft.bits), IfaceV{}}
 }
 
@@ -709,24 +702,22 @@ func (e *Exec) indexByte(s SliceV, ch *Term) *Term {
 	if s.b == nil {
 		return e.i64(-1)
 	}
-	if s.b.flt != nil {
-		if ch.IsConst() && (ch.c == 'e' || ch.c == 'E') {
-			f := s.b.flt.fmtc
-			if f == 'f' {
-				return e.i64(-1)
-			}
-			if (f == 'e' || f == 'E') && byte(ch.c) == f {
-				return e.i64(1)
-			}
-			if f == 'e' || f == 'E' {
-				return e.i64(-1)
-			}
-		}
-		e.unsupported("IndexByte on float text")
-	}
 	n := int(e.ConcInt(s.n))
 	for i := 0; i < n; i++ {
-		if e.Branch(e.ctx.Eq(e.sliceElem(s, i), ch)) {
+		cell := e.sliceElem(s, i)
+		if ft := e.ctx.floatInfo[cell]; ft != nil {
+			// abstract float text: only the presence of an exponent marker is known
+			if ch.IsConst() && (ch.c == 'e' || ch.c == 'E') {
+				if (ft.fmtc == 'e' || ft.fmtc == 'E') && byte(ch.c) == ft.fmtc {
+					return e.i64(int64(i))
+				}
+				if ft.fmtc == 'f' || ft.fmtc == 'e' || ft.fmtc == 'E' {
+					continue
+				}
+			}
+			e.unsupported("IndexByte on float text")
+		}
+		if e.Branch(e.ctx.Eq(cell, ch)) {
 			return e.i64(int64(i))
 		}
 	}
